@@ -1,1 +1,517 @@
-/-! Property theorems for C09 (not built yet). -/
+import Cellml.C09.Eval
+
+/-! # C09 — requested equations come back complete, minimal and in evaluable order.
+
+    Model (`Cellml/C09/Model.lean`): `buildGraph` = `Model.graph`, `stripGraph` = the edge removal of
+    `Model.graph_with_sympy_numbers` (given, per equation, the reference set after number substitution as observed
+    from SymPy), `lexTopo` = `nx.lexicographical_topological_sort(graph, key=str)` (Kahn's algorithm taking the least
+    `(key, insertion index)` among the ready nodes), `ancestors` = `nx.ancestors`, `preds` = `graph.pred`,
+    `getEquationsFor` = `Model.get_equations_for`. The result of `getEquationsFor` is the list of left-hand sides of
+    the equations returned, in order.
+
+    Vocabulary (definitions in `Cellml/C09/{Lemmas,Closure,Build,Eqsfor}.lean`):
+    * `hasEq eqs v` — `v` is the left-hand side of an equation; `isStateOrFree eqs v` — `v` is the state or the free
+      variable of some ODE of the system;
+    * `DepOn eqs strip u v` — `u` is referenced on the right-hand side of `v`'s equation (`strip = true`: and still
+      is after number substitution); `TC R` — transitive closure (at least one step) of `R`;
+    * `Needed eqs vars recurse strip v` — `v` is requested, or some request depends on `v` (`recurse = true`:
+      through `TC (DepOn …)`, otherwise directly);
+    * `Valid key eqs` — what `Model.graph` asserts: left-hand sides (and their `str`) pairwise different, every
+      reference is a left-hand side or a state / free variable;
+    * `WF g` — nodes listed once, edges join nodes; `Acyclic g` — a ranking exists along which every edge goes up,
+      which is proved equivalent to "no node reaches itself" (`acyclic_iff_no_cycle`);
+    * `KeyInj key l` — the nodes of `l` have pairwise different keys; `SameSystem eqs eqs'` — the same equations up
+      to the order of the list and the order / repetition inside each reference set.
+
+    Every theorem is for ALL equation systems, request lists, both recursion modes and both number representations —
+    no bound on the number of variables or the shape of the dependency graph. Acyclicity is never an extra
+    assumption of the `eqsfor_*` theorems: a result `.ok res` exists exactly when the system is valid and acyclic
+    (`eqsfor_total`, `eqsfor_ok_only_if`, `lexTopo_ok_iff_acyclic`, `acyclic_iff_no_cycle`). The one `_partial`
+    theorem is `strip_values_partial`: that SymPy's substituted right-hand sides are numerically identical to the
+    original ones is a hypothesis there, not a proved fact (SymPy is not modelled; the reference sets after
+    substitution are an INPUT of the model, `Eqn.refsNum`).
+    The tie to cellmlmanip is `harness/props/c09.py`. -/
+
+namespace Cellml.Props.C09
+open _root_.C09
+
+/-! ## The sort -/
+
+/-- **Kahn never gets stuck on an acyclic graph**: the output is a permutation of the nodes. -/
+theorem lexTopo_perm (key : Node → String) (g : Graph) (hwf : WF g) (hac : Acyclic g) :
+    ∃ l, lexTopo key g = .ok l ∧ l.Perm g.nodes := by
+  obtain ⟨l, hl⟩ := lexTopo_of_acyclic (key := key) hwf hac
+  exact ⟨l, hl, lexTopo_ok_perm hl⟩
+
+/-- Whenever the sort succeeds its output is a permutation of the nodes (so each node exactly once). -/
+theorem lexTopo_ok_is_perm (key : Node → String) (g : Graph) (l : List Node) (h : lexTopo key g = .ok l) :
+    l.Perm g.nodes := lexTopo_ok_perm h
+
+/-- **Every node is preceded by all its predecessors.** -/
+theorem lexTopo_topological (key : Node → String) (g : Graph) (l : List Node) (h : lexTopo key g = .ok l) :
+    ∀ (i : Nat) (v : Node), l[i]? = some v → ∀ u, (u, v) ∈ g.edges → u ∈ l.take i :=
+  lexTopo_ok_respects h
+
+/-- **"Sorted first by dependencies, then by name"**: the node at position `i` has the least key among the nodes
+    not yet output whose predecessors have all been output before `i`. Together with `lexTopo_topological` and
+    distinct keys this determines the order uniquely. -/
+theorem lexTopo_least (key : Node → String) (g : Graph) (l : List Node) (h : lexTopo key g = .ok l)
+    (i : Nat) (v : Node) (hi : l[i]? = some v) (w : Node) (hw : w ∈ g.nodes) (hnot : w ∉ l.take i)
+    (hready : ∀ u, (u, w) ∈ g.edges → u ∈ l.take i) : ¬ key w < key v := by
+  obtain ⟨rfl, _⟩ := lexTopo_ok h
+  exact kahn_least key g g.nodes.length g.nodes [] i v (Nat.zero_le _) hi w hw hnot (isReady_iff.mpr hready)
+
+/-- The sort succeeds exactly on the acyclic graphs (`NetworkXUnfeasible` otherwise). -/
+theorem lexTopo_ok_iff_acyclic (key : Node → String) (g : Graph) (hwf : WF g) :
+    (∃ l, lexTopo key g = .ok l) ↔ Acyclic g := by
+  constructor
+  · rintro ⟨l, hl⟩
+    exact ⟨fun v => l.idxOf v, acyclic_of_lexTopo hwf hl⟩
+  · exact lexTopo_of_acyclic hwf
+
+/-- `Acyclic` (a ranking exists) is acyclicity in the usual sense: no node reaches itself along edges. -/
+theorem acyclic_iff_no_cycle (g : Graph) : Acyclic g ↔ ∀ v, ¬ TC (Edge' g) v v :=
+  _root_.C09.acyclic_iff_no_cycle g
+
+/-- `lexTopo_perm` with acyclicity spelled out: no directed cycle ⇒ the sort outputs every node exactly once. -/
+theorem lexTopo_perm_of_no_cycle (key : Node → String) (g : Graph) (hwf : WF g)
+    (hno : ∀ v, ¬ TC (Edge' g) v v) : ∃ l, lexTopo key g = .ok l ∧ l.Perm g.nodes :=
+  lexTopo_perm key g hwf ((acyclic_iff_no_cycle g).mpr hno)
+
+/-- **With distinct keys the order does not depend on the order in which nodes and edges were inserted** (nor on
+    duplicated edge insertions): only on the set of nodes, the set of edges and the keys. Hence not on Python's set
+    iteration order in `find_variables_and_derivatives`, nor on the order of `Model.equations`. -/
+theorem lexTopo_insertion_independent (key : Node → String) (g g' : Graph)
+    (hnodes : g'.nodes.Perm g.nodes) (hedges : ∀ e, e ∈ g'.edges ↔ e ∈ g.edges) (hinj : KeyInj key g.nodes) :
+    lexTopo key g' = lexTopo key g := by
+  have hk := kahn_congr key g g' hedges g.nodes.length g.nodes g'.nodes [] hnodes hinj
+  simp only [lexTopo, hnodes.length_eq, hk]
+
+/-- Ties between equal keys ARE broken by insertion order (first inserted first) — the reason the hypothesis of
+    distinct keys cannot be dropped above. -/
+theorem lexTopo_tie_by_insertion :
+    lexTopo (fun _ => "k") ⟨[0, 1], []⟩ = .ok [0, 1] ∧ lexTopo (fun _ => "k") ⟨[1, 0], []⟩ = .ok [1, 0] := by
+  decide
+
+/-! ## `get_equations_for` -/
+
+/-- **Complete and minimal, each equation exactly once**: the result lists, without repetition, exactly the
+    equations of the requested quantities and of everything they depend on (transitively when recursing, directly
+    otherwise), where "depend" is read off the right-hand sides before (`strip = false`) or after (`strip = true`)
+    number substitution. -/
+theorem eqsfor_exact (key : Node → String) (eqs : List Eqn) (vars : List Node) (recurse strip : Bool)
+    (res : List Node) (h : getEquationsFor key eqs vars recurse strip = .ok res) :
+    res.Nodup ∧ ∀ v, v ∈ res ↔ (hasEq eqs v = true ∧ Needed eqs vars recurse strip v) := by
+  obtain ⟨g0, sorted, hb, _, hs, rfl⟩ := eqsfor_ok h
+  obtain ⟨_, hspec⟩ := buildGraph_valid hb
+  have hperm := lexTopo_ok_perm hs
+  rw [graphFor_nodes] at hperm
+  refine ⟨(hperm.nodup_iff.mpr hspec.wf.nodup).sublist List.filter_sublist, ?_⟩
+  intro v
+  simp only [List.mem_filter, Bool.and_eq_true, decide_eq_true_eq]
+  rw [mem_required hb hs]
+  constructor
+  · rintro ⟨_, h1, h2⟩; exact ⟨h2, h1⟩
+  · rintro ⟨h2, h1⟩
+    exact ⟨hperm.mem_iff.mpr ((hspec.nodes v).mpr (Or.inl h2)), h1, h2⟩
+
+/-- each returned equation appears exactly once (counting form of the `Nodup` above) -/
+theorem eqsfor_count (key : Node → String) (eqs : List Eqn) (vars : List Node) (recurse strip : Bool)
+    (res : List Node) (h : getEquationsFor key eqs vars recurse strip = .ok res) (v : Node) (hv : v ∈ res) :
+    res.count v = 1 :=
+  by rw [(eqsfor_exact key eqs vars recurse strip res h).1.count, if_pos hv]
+
+/-- Relative order (both recursion modes): whenever an equation of the result uses a quantity whose equation is
+    also in the result, the latter comes earlier. -/
+theorem eqsfor_relative_order (key : Node → String) (eqs : List Eqn) (vars : List Node) (recurse strip : Bool)
+    (res : List Node) (h : getEquationsFor key eqs vars recurse strip = .ok res)
+    (i : Nat) (v : Node) (hi : res[i]? = some v) (u : Node) (huv : DepOn eqs strip u v) (hu : u ∈ res) :
+    u ∈ res.take i := by
+  obtain ⟨g0, sorted, hb, _, hs, rfl⟩ := eqsfor_ok h
+  obtain ⟨hvalid, hspec⟩ := buildGraph_valid hb
+  obtain ⟨j, hj, ht⟩ := filter_getElem? hi
+  have hedge := (graphFor_edges (strip := strip) hvalid.lhsNodup hspec u v).mpr huv
+  have hbefore := lexTopo_ok_respects hs j v hj u hedge
+  rw [← ht]
+  exact List.mem_filter.mpr ⟨hbefore, (List.mem_filter.mp hu).2⟩
+
+/-- **Evaluable order** (recursing): every variable or derivative used on a right-hand side of the result is
+    defined EARLIER in the result, or has no equation at all — and is then a state variable or the free variable. -/
+theorem eqsfor_order (key : Node → String) (eqs : List Eqn) (vars : List Node) (strip : Bool)
+    (res : List Node) (h : getEquationsFor key eqs vars true strip = .ok res)
+    (i : Nat) (v : Node) (hi : res[i]? = some v) (u : Node) (huv : DepOn eqs strip u v) :
+    u ∈ res.take i ∨ (hasEq eqs u = false ∧ isStateOrFree eqs u = true) := by
+  have hex := eqsfor_exact key eqs vars true strip res h
+  obtain ⟨g0, sorted, hb, _, hs, hres⟩ := eqsfor_ok h
+  obtain ⟨hvalid, hspec⟩ := buildGraph_valid hb
+  cases hu : hasEq eqs u with
+  | false =>
+      right
+      refine ⟨rfl, ?_⟩
+      obtain ⟨e, he, _, hr, _⟩ := huv
+      rcases hvalid.refsOk e he u hr with h' | h'
+      · rw [hu] at h'; cases h'
+      · exact h'
+  | true =>
+      left
+      apply eqsfor_relative_order key eqs vars true strip res h i v hi u huv
+      have hv : v ∈ res := List.mem_of_getElem? hi
+      obtain ⟨_, hn⟩ := (hex.2 v).mp hv
+      refine (hex.2 u).mpr ⟨hu, ?_⟩
+      rcases hn with hn | ⟨r, hr, hn⟩
+      · exact Or.inr ⟨v, hn, TC.base huv⟩
+      · exact Or.inr ⟨r, hr, TC.head huv hn⟩
+
+/-- Consequently the whole right-hand side of every returned equation can be evaluated from what precedes it plus
+    states and the free variable (`eqsfor_order` for all references at once, stated on the unstripped
+    references as well: a reference that vanished after substitution is not needed for evaluation). -/
+theorem eqsfor_order_all (key : Node → String) (eqs : List Eqn) (vars : List Node) (strip : Bool)
+    (res : List Node) (h : getEquationsFor key eqs vars true strip = .ok res)
+    (i : Nat) (e : Eqn) (he : e ∈ eqs) (hi : res[i]? = some e.lhs) :
+    ∀ u ∈ e.refs, (strip = true → u ∈ e.refsNum) →
+      u ∈ res.take i ∨ (hasEq eqs u = false ∧ isStateOrFree eqs u = true) :=
+  fun u hu hn => eqsfor_order key eqs vars strip res h i e.lhs hi u ⟨e, he, rfl, hu, hn⟩
+
+/-- The call succeeds on every valid system whose dependencies can be ranked (see `eqsfor_total`). -/
+theorem eqsfor_total_of_rank (key : Node → String) (eqs : List Eqn) (vars : List Node) (recurse strip : Bool)
+    (hvalid : Valid key eqs)
+    (hvars : ∀ v ∈ vars, hasEq eqs v = true ∨ isStateOrFree eqs v = true)
+    (hac : ∃ rank : Node → Nat, ∀ u v, DepOn eqs strip u v → rank u < rank v) :
+    ∃ res, getEquationsFor key eqs vars recurse strip = .ok res := by
+  obtain ⟨g0, hb⟩ := buildGraph_ok hvalid
+  obtain ⟨_, hspec⟩ := buildGraph_valid hb
+  obtain ⟨rank, hrank⟩ := hac
+  have hwf : WF (graphFor eqs strip g0) := graphFor_wf hspec.wf
+  obtain ⟨sorted, hs⟩ := lexTopo_of_acyclic (key := key) hwf
+    ⟨rank, fun u v huv => hrank u v ((graphFor_edges hvalid.lhsNodup hspec u v).mp huv)⟩
+  have hall : (vars.all fun v => decide (v ∈ (graphFor eqs strip g0).nodes)) = true := by
+    simp only [List.all_eq_true, decide_eq_true_eq, graphFor_nodes]
+    exact fun v hv => (hspec.nodes v).mpr (hvars v hv)
+  simp only [getEquationsFor, hb, hall, not_true_eq_false, if_false, hs]
+  exact ⟨_, rfl⟩
+
+/-- **The call succeeds on every valid acyclic system** — no quantity depends on itself through the references
+    (before resp. after number substitution) — whatever is requested among its nodes. -/
+theorem eqsfor_total (key : Node → String) (eqs : List Eqn) (vars : List Node) (recurse strip : Bool)
+    (hvalid : Valid key eqs)
+    (hvars : ∀ v ∈ vars, hasEq eqs v = true ∨ isStateOrFree eqs v = true)
+    (hno : ∀ v, ¬ TC (DepOn eqs strip) v v) :
+    ∃ res, getEquationsFor key eqs vars recurse strip = .ok res := by
+  obtain ⟨g0, hb⟩ := buildGraph_ok hvalid
+  obtain ⟨_, hspec⟩ := buildGraph_valid hb
+  have hac : Acyclic (graphFor eqs strip g0) :=
+    (acyclic_iff_no_cycle _).mpr fun v t => hno v ((tc_edge_iff hvalid.lhsNodup hspec v v).mp t)
+  obtain ⟨rank, hrank⟩ := hac
+  exact eqsfor_total_of_rank key eqs vars recurse strip hvalid hvars
+    ⟨rank, fun u v huv => hrank u v ((graphFor_edges hvalid.lhsNodup hspec u v).mpr huv)⟩
+
+/-- Conversely a result is only ever produced for a valid, acyclic system and requests that are nodes of it. -/
+theorem eqsfor_ok_only_if (key : Node → String) (eqs : List Eqn) (vars : List Node) (recurse strip : Bool)
+    (res : List Node) (h : getEquationsFor key eqs vars recurse strip = .ok res) :
+    Valid key eqs ∧ (∀ v ∈ vars, hasEq eqs v = true ∨ isStateOrFree eqs v = true) ∧
+      ∃ rank : Node → Nat, ∀ u v, DepOn eqs strip u v → rank u < rank v := by
+  obtain ⟨g0, sorted, hb, hvars, hs, _⟩ := eqsfor_ok h
+  obtain ⟨hvalid, hspec⟩ := buildGraph_valid hb
+  refine ⟨hvalid, fun v hv => (hspec.nodes v).mp (hvars v hv), fun v => sorted.idxOf v, ?_⟩
+  intro u v huv
+  exact acyclic_of_lexTopo (graphFor_wf hspec.wf) hs u v ((graphFor_edges hvalid.lhsNodup hspec u v).mpr huv)
+
+/-- … in particular no quantity of such a system depends on itself. -/
+theorem eqsfor_ok_no_cycle (key : Node → String) (eqs : List Eqn) (vars : List Node) (recurse strip : Bool)
+    (res : List Node) (h : getEquationsFor key eqs vars recurse strip = .ok res) :
+    ∀ v, ¬ TC (DepOn eqs strip) v v := by
+  obtain ⟨_, _, rank, hrank⟩ := eqsfor_ok_only_if key eqs vars recurse strip res h
+  exact fun v t => Nat.lt_irrefl _ (TC.rank_lt rank hrank t)
+
+/-! ## The unit-stripped variant -/
+
+/-- **The stripped result** (i) contains every requested left-hand side that has an equation, (ii) is, without
+    repetition, exactly the set of equations reachable from the requests through the references that SURVIVE number
+    substitution, and (iii) is contained in the unstripped result: the only equations omitted are those all of whose
+    influence paths vanish once numbers are substituted. (The two lists need not be in the same relative order:
+    removing a dependency can let an equation move forward.) -/
+theorem strip_subset (key : Node → String) (eqs : List Eqn) (vars : List Node) (recurse : Bool)
+    (resS resP : List Node)
+    (hS : getEquationsFor key eqs vars recurse true = .ok resS)
+    (hP : getEquationsFor key eqs vars recurse false = .ok resP) :
+    (∀ v ∈ vars, hasEq eqs v = true → v ∈ resS) ∧
+    (resS.Nodup ∧ ∀ v, v ∈ resS ↔ (hasEq eqs v = true ∧ Needed eqs vars recurse true v)) ∧
+    (∀ v ∈ resS, v ∈ resP) ∧
+    (∀ v ∈ resP, v ∉ resS → ¬ Needed eqs vars recurse true v) := by
+  have eS := eqsfor_exact key eqs vars recurse true resS hS
+  have eP := eqsfor_exact key eqs vars recurse false resP hP
+  refine ⟨?_, eS, ?_, ?_⟩
+  · intro v hv he
+    exact (eS.2 v).mpr ⟨he, Or.inl hv⟩
+  · intro v hv
+    obtain ⟨he, hn⟩ := (eS.2 v).mp hv
+    refine (eP.2 v).mpr ⟨he, ?_⟩
+    rcases hn with hn | ⟨r, hr, hn⟩
+    · exact Or.inl hn
+    · refine Or.inr ⟨r, hr, ?_⟩
+      cases recurse with
+      | true => exact TC.mono (fun _ _ h => h.weaken) hn
+      | false => exact hn.weaken
+  · intro v hv hnot hn
+    exact hnot ((eS.2 v).mpr ⟨((eP.2 v).mp hv).1, hn⟩)
+
+/-! ## What the order is good for: evaluating the list from top to bottom
+
+    `f v ρ` stands for the value of the right-hand side of `v`'s equation in the environment `ρ` (any value type `K`);
+    `run f res ρ₀` assigns the left-hand sides of `res` in order, starting from `ρ₀` (which carries the values of the
+    states and of the free variable). -/
+
+/-- the right-hand side of each equation reads only what the equation references (before / after substitution) -/
+def ReadsOnly {K : Type} (eqs : List Eqn) (strip : Bool) (f : Node → (Node → K) → K) : Prop :=
+  ∀ v ρ ρ', (∀ u, DepOn eqs strip u v → ρ u = ρ' u) → f v ρ = f v ρ'
+
+/-- **The returned list can be evaluated top to bottom**: after assigning the left-hand sides in the order returned,
+    every returned equation holds in the final environment, and nothing but left-hand sides was touched. -/
+theorem eqsfor_evaluable {K : Type} (key : Node → String) (eqs : List Eqn) (vars : List Node) (strip : Bool)
+    (res : List Node) (h : getEquationsFor key eqs vars true strip = .ok res)
+    (f : Node → (Node → K) → K) (hloc : ReadsOnly eqs strip f) (ρ₀ : Node → K) :
+    (∀ v ∈ res, run f res ρ₀ v = f v (run f res ρ₀)) ∧ (∀ u, hasEq eqs u = false → run f res ρ₀ u = ρ₀ u) := by
+  have hex := eqsfor_exact key eqs vars true strip res h
+  have hW : ∀ u, hasEq eqs u = false → u ∉ res := by
+    intro u hu hmem
+    rw [((hex.2 u).mp hmem).1] at hu; cases hu
+  refine ⟨?_, fun u hu => run_not_mem f res ρ₀ u (hW u hu)⟩
+  apply run_satisfies f (fun u v => DepOn eqs strip u v) hloc res (fun u => hasEq eqs u = false) ρ₀ hex.1 hW
+  intro i v hi u hu
+  exact (eqsfor_order key eqs vars strip res h i v hi u hu).imp id (fun h' => h'.1)
+
+/-- **Stripped and unstripped lists compute the same numbers** for every left-hand side the stripped list returns —
+    so the equations it omits have no influence on them.
+
+    PARTIAL: the statement about SymPy is a HYPOTHESIS here, not a proved fact: `hsame` (replacing each `Quantity` by
+    its `Float` and letting SymPy simplify does not change the value of a right-hand side) and `hlocN` (the
+    simplified right-hand side reads only the references observed on it). What is proved is the part that belongs to
+    cellmlmanip: given that, dropping the edges / equations that `graph_with_sympy_numbers` drops, and re-sorting,
+    changes no returned value. The correspondence check tests `hsame` numerically at random points. -/
+theorem strip_values_partial {K : Type} (key : Node → String) (eqs : List Eqn) (vars : List Node)
+    (resS resP : List Node)
+    (hS : getEquationsFor key eqs vars true true = .ok resS)
+    (hP : getEquationsFor key eqs vars true false = .ok resP)
+    (f fN : Node → (Node → K) → K) (hloc : ReadsOnly eqs false f) (hlocN : ReadsOnly eqs true fN)
+    (hsame : ∀ v ρ, hasEq eqs v = true → fN v ρ = f v ρ) (ρ₀ : Node → K) :
+    ∀ v ∈ resS, run fN resS ρ₀ v = run f resP ρ₀ v := by
+  have evS := eqsfor_evaluable key eqs vars true resS hS fN hlocN ρ₀
+  have evP := eqsfor_evaluable key eqs vars false resP hP f hloc ρ₀
+  have hsub := (strip_subset key eqs vars true resS resP hS hP).2.2.1
+  have hexS := eqsfor_exact key eqs vars true true resS hS
+  have key' : ∀ (n i : Nat) (v : Node), i < n → resS[i]? = some v → run fN resS ρ₀ v = run f resP ρ₀ v := by
+    intro n
+    induction n with
+    | zero => intro i v hi; omega
+    | succ n ih =>
+        intro i v hi hv
+        have hvS : v ∈ resS := List.mem_of_getElem? hv
+        have hveq : hasEq eqs v = true := ((hexS.2 v).mp hvS).1
+        rw [evS.1 v hvS, evP.1 v (hsub v hvS), ← hsame v _ hveq]
+        apply hlocN
+        intro u hu
+        rcases eqsfor_order key eqs vars true resS hS i v hv u hu with h | ⟨h, _⟩
+        · obtain ⟨j, hj, huj⟩ := exists_lt_of_mem_take h
+          exact ih j u (by omega) huj
+        · rw [evS.2 u h, evP.2 u h]
+  intro v hv
+  obtain ⟨i, hi⟩ := List.mem_iff_getElem?.mp hv
+  exact key' (i + 1) i v (Nat.lt_succ_self i) hi
+
+/-- If the unstripped call succeeds so does the stripped one (removing edges cannot create a cycle). -/
+theorem strip_ok_of_plain_ok (key : Node → String) (eqs : List Eqn) (vars : List Node) (recurse : Bool)
+    (resP : List Node) (hP : getEquationsFor key eqs vars recurse false = .ok resP) :
+    ∃ resS, getEquationsFor key eqs vars recurse true = .ok resS := by
+  obtain ⟨hvalid, hvars, rank, hrank⟩ := eqsfor_ok_only_if key eqs vars recurse false resP hP
+  exact eqsfor_total_of_rank key eqs vars recurse true hvalid hvars ⟨rank, fun u v h => hrank u v h.weaken⟩
+
+/-! ## Independence of insertion order, at the level of `get_equations_for` -/
+
+/-- **Ties are broken the same way however the model was put together**: two successful calls on the same system,
+    entered in any order of equations and with the reference sets iterated in any order, return the same list —
+    provided the `str` keys of the nodes are distinct (in cellmlmanip they are: variable names are unique and the
+    sanity check of `Model.graph` rejects equal `str` of left-hand sides). -/
+theorem eqsfor_insertion_independent (key : Node → String) (eqs eqs' : List Eqn) (vars : List Node)
+    (recurse strip : Bool) (res res' : List Node) (hsame : SameSystem eqs eqs')
+    (hinj : ∀ a b, (hasEq eqs a = true ∨ isStateOrFree eqs a = true) →
+      (hasEq eqs b = true ∨ isStateOrFree eqs b = true) → key a = key b → a = b)
+    (h : getEquationsFor key eqs vars recurse strip = .ok res)
+    (h' : getEquationsFor key eqs' vars recurse strip = .ok res') : res' = res := by
+  obtain ⟨g0, sorted, hb, _, hs, rfl⟩ := eqsfor_ok h
+  obtain ⟨g0', sorted', hb', _, hs', rfl⟩ := eqsfor_ok h'
+  obtain ⟨hvalid, hspec⟩ := buildGraph_valid hb
+  obtain ⟨hvalid', hspec'⟩ := buildGraph_valid hb'
+  have hnodes : (graphFor eqs' strip g0').nodes.Perm (graphFor eqs strip g0).nodes := by
+    rw [graphFor_nodes, graphFor_nodes]
+    rw [List.perm_ext_iff_of_nodup hspec'.wf.nodup hspec.wf.nodup]
+    intro a
+    rw [hspec'.nodes, hspec.nodes, sameSystem_hasEq hsame, sameSystem_sf hsame]
+  have hedges : ∀ e, e ∈ (graphFor eqs' strip g0').edges ↔ e ∈ (graphFor eqs strip g0).edges := by
+    rintro ⟨u, v⟩
+    rw [graphFor_edges hvalid'.lhsNodup hspec', graphFor_edges hvalid.lhsNodup hspec, sameSystem_dep hsame]
+  have hkey : KeyInj key (graphFor eqs strip g0).nodes := by
+    intro a ha b hb' hk
+    rw [graphFor_nodes] at ha hb'
+    exact hinj a b ((hspec.nodes a).mp ha) ((hspec.nodes b).mp hb') hk
+  have hsort := lexTopo_insertion_independent key _ _ hnodes hedges hkey
+  rw [hs, hs'] at hsort
+  simp only [Except.ok.injEq] at hsort
+  subst hsort
+  apply List.filter_congr
+  intro v _
+  have hreq : decide (v ∈ required (graphFor eqs' strip g0') vars recurse) =
+      decide (v ∈ required (graphFor eqs strip g0) vars recurse) := by
+    apply decide_eq_decide.mpr
+    rw [mem_required hb' hs', mem_required hb hs]
+    simp only [Needed]
+    apply or_congr Iff.rfl
+    apply exists_congr; intro r
+    apply and_congr Iff.rfl
+    cases recurse with
+    | true =>
+        exact ⟨TC.mono fun a b hd => (sameSystem_dep hsame strip a b).mp hd,
+               TC.mono fun a b hd => (sameSystem_dep hsame strip a b).mpr hd⟩
+    | false => exact sameSystem_dep hsame strip v r
+  rw [hreq, sameSystem_hasEq hsame]
+
+/-! ## Non-vacuity: a concrete diamond  `d = b + c`, `b = 2·a`, `c = 0·a + 1`, `a = 1`
+    (nodes 0 = d, 1 = b, 2 = c, 3 = a; the dependency of `c` on `a` vanishes when numbers are substituted). -/
+
+def diamondKey : Node → String := fun v => ["d", "b", "c", "a"].getD v ""
+
+def diamond : List Eqn :=
+  [ { lhs := 0, refs := [1, 2], refsNum := [1, 2] },
+    { lhs := 1, refs := [3], refsNum := [3] },
+    { lhs := 2, refs := [3], refsNum := [] },
+    { lhs := 3, refs := [], refsNum := [] } ]
+
+/-- the same system entered in another order, with a reference set iterated the other way round -/
+def diamond' : List Eqn :=
+  [ { lhs := 3, refs := [], refsNum := [] },
+    { lhs := 2, refs := [3], refsNum := [] },
+    { lhs := 0, refs := [2, 1], refsNum := [2, 1] },
+    { lhs := 1, refs := [3], refsNum := [3] } ]
+
+example : getEquationsFor diamondKey diamond [0] true false = .ok [3, 1, 2, 0] := by decide +kernel
+example : getEquationsFor diamondKey diamond' [0] true false = .ok [3, 1, 2, 0] := by decide +kernel
+example : getEquationsFor diamondKey diamond [0] false false = .ok [1, 2, 0] := by decide +kernel
+example : getEquationsFor diamondKey diamond [2] true false = .ok [3, 2] := by decide +kernel
+/-- stripped: `c` no longer needs `a` -/
+example : getEquationsFor diamondKey diamond [2] true true = .ok [2] := by decide +kernel
+example : getEquationsFor diamondKey diamond [0] true true = .ok [3, 1, 2, 0] := by decide +kernel
+/-- a request that is not a node; a cyclic system -/
+example : getEquationsFor diamondKey diamond [7] true false = .error .notInGraph := by decide +kernel
+example : getEquationsFor diamondKey [{ lhs := 0, refs := [1], refsNum := [1] }, { lhs := 1, refs := [0], refsNum := [] }]
+    [0] true false = .error .unfeasible := by decide +kernel
+/-- … whose cycle vanishes after number substitution -/
+example : getEquationsFor diamondKey [{ lhs := 0, refs := [1], refsNum := [1] }, { lhs := 1, refs := [0], refsNum := [] }]
+    [0] true true = .ok [1, 0] := by decide +kernel
+
+/-- an ODE: `dx/dt = -x·a` (node 4, state 5 = x, free 6 = t), `a = 1` (node 3), `y = dx/dt + x` (node 0) -/
+def odeSys : List Eqn :=
+  [ { lhs := 4, refs := [5, 3], refsNum := [5, 3], ode := some (5, 6) },
+    { lhs := 3, refs := [], refsNum := [] },
+    { lhs := 0, refs := [4, 5], refsNum := [4, 5] } ]
+
+def odeKey : Node → String := fun v => ["y", "", "", "a", "Derivative(_x, _t)", "x", "t"].getD v ""
+
+example : getEquationsFor odeKey odeSys [0] true false = .ok [3, 4, 0] := by decide +kernel
+example : buildGraph odeKey odeSys = .ok ⟨[4, 3, 0, 5, 6], [(5, 4), (3, 4), (4, 0), (5, 0)]⟩ := by decide +kernel
+
+/-- the hypotheses of `eqsfor_total` are met by the diamond … -/
+example : Valid diamondKey diamond ∧ (∀ v, ¬ TC (DepOn diamond false) v v) :=
+  ⟨(eqsfor_ok_only_if diamondKey diamond [0] true false [3, 1, 2, 0] (by decide +kernel)).1,
+   eqsfor_ok_no_cycle diamondKey diamond [0] true false [3, 1, 2, 0] (by decide +kernel)⟩
+
+/-- the diamond evaluated: `a = 1`, `b = 2·a`, `c = 0·a + 1`, `d = b + c` (over `Int`); the stripped `c = 1` reads
+    nothing. Both runs give `d = 3`. -/
+def diamondRhs : Node → (Node → Int) → Int
+  | 0, ρ => ρ 1 + ρ 2
+  | 1, ρ => 2 * ρ 3
+  | 2, ρ => 0 * ρ 3 + 1
+  | _, _ => 1
+
+def diamondRhsNum : Node → (Node → Int) → Int
+  | 0, ρ => ρ 1 + ρ 2
+  | 1, ρ => 2 * ρ 3
+  | 2, _ => 1
+  | _, _ => 1
+
+example : run diamondRhs [3, 1, 2, 0] (fun _ => 0) 0 = 3 ∧ run diamondRhsNum [3, 1, 2, 0] (fun _ => 0) 0 = 3 := by
+  decide
+
+/-- … and they meet the hypotheses of `eqsfor_evaluable` / `strip_values_partial` -/
+example : ReadsOnly diamond false diamondRhs ∧ ReadsOnly diamond true diamondRhsNum ∧
+    (∀ v ρ, hasEq diamond v = true → diamondRhsNum v ρ = diamondRhs v ρ) := by
+  have dep : ∀ (strip : Bool) (u v : Node) (e : Eqn), e ∈ diamond → e.lhs = v → u ∈ e.refs →
+      (strip = true → u ∈ e.refsNum) → DepOn diamond strip u v := fun _ _ _ e he h1 h2 h3 => ⟨e, he, h1, h2, h3⟩
+  refine ⟨?_, ?_, ?_⟩
+  · intro v ρ ρ' h
+    match v with
+    | 0 =>
+        have h1 := h 1 (dep false 1 0 { lhs := 0, refs := [1, 2], refsNum := [1, 2] } (by simp [diamond]) rfl (by simp) (by simp))
+        have h2 := h 2 (dep false 2 0 { lhs := 0, refs := [1, 2], refsNum := [1, 2] } (by simp [diamond]) rfl (by simp) (by simp))
+        simp [diamondRhs, h1, h2]
+    | 1 =>
+        have h3 := h 3 (dep false 3 1 { lhs := 1, refs := [3], refsNum := [3] } (by simp [diamond]) rfl (by simp) (by simp))
+        simp [diamondRhs, h3]
+    | 2 => simp [diamondRhs]
+    | n + 3 => simp [diamondRhs]
+  · intro v ρ ρ' h
+    match v with
+    | 0 =>
+        have h1 := h 1 (dep true 1 0 { lhs := 0, refs := [1, 2], refsNum := [1, 2] } (by simp [diamond]) rfl (by simp) (by simp))
+        have h2 := h 2 (dep true 2 0 { lhs := 0, refs := [1, 2], refsNum := [1, 2] } (by simp [diamond]) rfl (by simp) (by simp))
+        simp [diamondRhsNum, h1, h2]
+    | 1 =>
+        have h3 := h 3 (dep true 3 1 { lhs := 1, refs := [3], refsNum := [3] } (by simp [diamond]) rfl (by simp) (by simp))
+        simp [diamondRhsNum, h3]
+    | 2 => simp [diamondRhsNum]
+    | n + 3 => simp [diamondRhsNum]
+  · intro v ρ _
+    match v with
+    | 0 => rfl
+    | 1 => rfl
+    | 2 => simp [diamondRhs, diamondRhsNum]
+    | n + 3 => simp [diamondRhs, diamondRhsNum]
+
+/-- … those of `SameSystem` / distinct keys by the two spellings of the diamond … -/
+example : SameSystem diamond diamond' := by
+  constructor
+  · intro e he
+    simp only [diamond, List.mem_cons, List.not_mem_nil, or_false] at he
+    rcases he with rfl | rfl | rfl | rfl
+    · exact ⟨{ lhs := 0, refs := [2, 1], refsNum := [2, 1] }, by simp [diamond'], rfl, rfl,
+        by intro u; simp [or_comm],
+        by intro u; simp [or_comm]⟩
+    · exact ⟨_, by simp [diamond'], rfl, rfl, fun _ => Iff.rfl, fun _ => Iff.rfl⟩
+    · exact ⟨_, by simp [diamond'], rfl, rfl, fun _ => Iff.rfl, fun _ => Iff.rfl⟩
+    · exact ⟨_, by simp [diamond'], rfl, rfl, fun _ => Iff.rfl, fun _ => Iff.rfl⟩
+  · intro e he
+    simp only [diamond', List.mem_cons, List.not_mem_nil, or_false] at he
+    rcases he with rfl | rfl | rfl | rfl
+    · exact ⟨_, by simp [diamond], rfl, rfl, fun _ => Iff.rfl, fun _ => Iff.rfl⟩
+    · exact ⟨_, by simp [diamond], rfl, rfl, fun _ => Iff.rfl, fun _ => Iff.rfl⟩
+    · exact ⟨{ lhs := 0, refs := [1, 2], refsNum := [1, 2] }, by simp [diamond], rfl, rfl,
+        by intro u; simp [or_comm],
+        by intro u; simp [or_comm]⟩
+    · exact ⟨_, by simp [diamond], rfl, rfl, fun _ => Iff.rfl, fun _ => Iff.rfl⟩
+
+/-- … and those of `lexTopo_perm` / `lexTopo_insertion_independent` by its graph. -/
+example : WF ⟨[0, 1, 2, 3], [(1, 0), (2, 0), (3, 1), (3, 2)]⟩ ∧ Acyclic ⟨[0, 1, 2, 3], [(1, 0), (2, 0), (3, 1), (3, 2)]⟩ ∧
+    KeyInj diamondKey [0, 1, 2, 3] := by
+  refine ⟨⟨by decide, ?_, ?_⟩, ⟨fun v => 3 - v, ?_⟩, ?_⟩
+  · intro u v h
+    simp only [List.mem_cons, Prod.mk.injEq, List.not_mem_nil, or_false] at h
+    rcases h with ⟨rfl, rfl⟩ | ⟨rfl, rfl⟩ | ⟨rfl, rfl⟩ | ⟨rfl, rfl⟩ <;> decide
+  · intro u v h
+    simp only [List.mem_cons, Prod.mk.injEq, List.not_mem_nil, or_false] at h
+    rcases h with ⟨rfl, rfl⟩ | ⟨rfl, rfl⟩ | ⟨rfl, rfl⟩ | ⟨rfl, rfl⟩ <;> decide
+  · intro u v h
+    simp only [List.mem_cons, Prod.mk.injEq, List.not_mem_nil, or_false] at h
+    rcases h with ⟨rfl, rfl⟩ | ⟨rfl, rfl⟩ | ⟨rfl, rfl⟩ | ⟨rfl, rfl⟩ <;> decide
+  · intro a ha b hb
+    simp only [List.mem_cons, List.not_mem_nil, or_false] at ha hb
+    rcases ha with rfl | rfl | rfl | rfl <;> rcases hb with rfl | rfl | rfl | rfl <;> decide +kernel
+
+end Cellml.Props.C09
